@@ -78,6 +78,14 @@ func fill(r *rand.Rand, n int, class string) []byte {
 		for i := range b {
 			b[i] = p[i%len(p)]
 		}
+	case "json":
+		var sb bytes.Buffer
+		for i := 0; sb.Len() < n; i++ {
+			fmt.Fprintf(&sb, `{"id":%d,"topic":"orders","partition":%d,"key":"user-%04d","value":{"amount":%d.%02d,"currency":"EUR","tags":["a","b","c"]}},`,
+				i, r.Intn(12), r.Intn(50), r.Intn(1000), r.Intn(100))
+			sb.WriteByte('\n')
+		}
+		copy(b, sb.Bytes())
 	default: // text
 		words := []string{"kafka", "offset", "partition", "the", "snappy", "xerial", " ", "\n", "0123456789"}
 		var sb bytes.Buffer
@@ -93,7 +101,7 @@ func fill(r *rand.Rand, n int, class string) []byte {
 var forcedLen int
 
 func genPayload(r *rand.Rand, maxLen int) ([]byte, []string) {
-	classes := []string{"rand", "zeros", "rep", "text"}
+	classes := []string{"rand", "zeros", "rep", "text", "json", "json"}
 	class := classes[r.Intn(len(classes))]
 	var n int
 	var szf string
@@ -199,6 +207,8 @@ func errClass(err error) string {
 		return "UEOF"
 	case errors.Is(err, errShort):
 		return "SHORT"
+	case errors.Is(err, errIO):
+		return "IO"
 	case errors.Is(err, ksnappy.ErrCorrupt), errors.Is(err, ksnappy.ErrTooLarge), errors.Is(err, ksnappy.ErrUnsupported),
 		errors.Is(err, s2.ErrCorrupt), errors.Is(err, s2.ErrTooLarge), errors.Is(err, s2.ErrUnsupported):
 		return "CORRUPT"
@@ -251,33 +261,70 @@ func (c *chopReader) Read(b []byte) (int, error) {
 	return n, nil
 }
 
-// limitsReader: the i-th Read returns at most limits[i] bytes (no limit afterwards).
-type limitsReader struct {
-	data   []byte
-	limits []int
+// scriptReader is the io.Reader handed to ReadFrom / io.Copy: the i-th Read returns at most
+// steps[i] bytes (0: a (0, nil) Read; no limit once the list is exhausted); with eofWithData
+// the Read that hands over the last byte also returns the final error, as
+// iotest.DataErrReader does; the final error is io.EOF unless fails.
+type scriptReader struct {
+	data        []byte
+	steps       []int
+	eofWithData bool
+	fails       bool
 }
 
-func (c *limitsReader) Read(b []byte) (int, error) {
+var errIO = errors.New("source failed")
+
+func (c *scriptReader) final() error {
+	if c.fails {
+		return errIO
+	}
+	return io.EOF
+}
+
+func (c *scriptReader) Read(b []byte) (int, error) {
 	if len(c.data) == 0 {
-		return 0, io.EOF
+		return 0, c.final()
 	}
 	n := len(b)
-	if len(c.limits) > 0 {
-		l := c.limits[0]
-		if l < 1 {
-			l = 1
+	if len(c.steps) > 0 {
+		if c.steps[0] < n {
+			n = c.steps[0]
 		}
-		if l < n {
-			n = l
-		}
-		c.limits = c.limits[1:]
+		c.steps = c.steps[1:]
 	}
 	if n > len(c.data) {
 		n = len(c.data)
 	}
 	copy(b, c.data[:n])
 	c.data = c.data[n:]
+	if len(c.data) == 0 && c.eofWithData && n > 0 {
+		return n, c.final()
+	}
 	return n, nil
+}
+
+func genScript(r *rand.Rand, data []byte, allowFail bool) (*scriptReader, string, []string) {
+	sr := &scriptReader{data: data}
+	var f []string
+	for k := r.Intn(4); k > 0; k-- {
+		switch r.Intn(5) {
+		case 0:
+			sr.steps = append(sr.steps, 0)
+			f = append(f, "src=(0,nil)-read")
+		default:
+			sr.steps = append(sr.steps, 1+r.Intn(2000))
+		}
+	}
+	if r.Intn(2) == 0 {
+		sr.eofWithData = true
+		f = append(f, "src=(n>0,EOF)")
+	}
+	if allowFail && r.Intn(12) == 0 {
+		sr.fails = true
+		f = append(f, "src-fails")
+	}
+	spec := fmt.Sprintf("%s/%s/%s/%s", hx(data), kvfmt.Ints(sr.steps), kvfmt.Bool(sr.eofWithData), kvfmt.Bool(sr.fails))
+	return sr, spec, f
 }
 
 // ----------------------------------------------------------------------------- reference xerial
@@ -296,6 +343,85 @@ func refXerialEncode(blocks [][]byte, enc func([]byte) []byte) []byte {
 		b.Write(c)
 	}
 	return b.Bytes()
+}
+
+// strictSnappyDecode is a decoder for the snappy BLOCK format written from the format
+// description (the Go counterpart of coq/Spec/SnappyBlock.v, compared with it by the "sb"
+// cases): varint length, literal / copy-1 / copy-2 / copy-4 elements; a copy with offset 0
+// (the S2 "repeat" extension) or reaching before the start of the output, output beyond
+// the announced length, a cut element and a wrong final length are errors.
+func strictSnappyDecode(src []byte) ([]byte, error) {
+	dlen, n := binary.Uvarint(src)
+	if n <= 0 || dlen > 0xffffffff {
+		return nil, errors.New("strict snappy: bad length preamble")
+	}
+	src = src[n:]
+	if dlen > uint64(len(src))*64+64 { // a copy element of 2 bytes yields at most 64
+		return nil, errors.New("strict snappy: announced length cannot be reached")
+	}
+	out := make([]byte, 0, dlen)
+	for len(src) > 0 {
+		tag := src[0]
+		src = src[1:]
+		up := int(tag >> 2)
+		var length, offset int
+		switch tag & 3 {
+		case 0:
+			m := up
+			if up >= 60 {
+				k := up - 59
+				if len(src) < k {
+					return nil, errors.New("strict snappy: cut literal length")
+				}
+				m = 0
+				for i := k - 1; i >= 0; i-- {
+					m = m<<8 | int(src[i])
+				}
+				src = src[k:]
+			}
+			length = m + 1
+			if length > len(src) || len(out)+length > int(dlen) {
+				return nil, fmt.Errorf("strict snappy: literal of %d bytes at output position %d does not fit", length, len(out))
+			}
+			out = append(out, src[:length]...)
+			src = src[length:]
+			continue
+		case 1:
+			if len(src) < 1 {
+				return nil, errors.New("strict snappy: cut copy")
+			}
+			length = 4 + up&7
+			offset = (up>>3)<<8 | int(src[0])
+			src = src[1:]
+		case 2:
+			if len(src) < 2 {
+				return nil, errors.New("strict snappy: cut copy")
+			}
+			length = 1 + up
+			offset = int(src[0]) | int(src[1])<<8
+			src = src[2:]
+		default:
+			if len(src) < 4 {
+				return nil, errors.New("strict snappy: cut copy")
+			}
+			length = 1 + up
+			offset = int(src[0]) | int(src[1])<<8 | int(src[2])<<16 | int(src[3])<<24
+			src = src[4:]
+		}
+		if offset == 0 {
+			return nil, fmt.Errorf("strict snappy: copy with offset 0 at output position %d (S2 repeat extension, not snappy)", len(out))
+		}
+		if offset > len(out) || len(out)+length > int(dlen) {
+			return nil, fmt.Errorf("strict snappy: copy offset %d length %d at output position %d out of range", offset, length, len(out))
+		}
+		for i := 0; i < length; i++ {
+			out = append(out, out[len(out)-offset])
+		}
+	}
+	if len(out) != int(dlen) {
+		return nil, errors.New("strict snappy: decoded length differs from the announced one")
+	}
+	return out, nil
 }
 
 // hand-written de-framing + block decode
@@ -317,7 +443,7 @@ func refXerialDecode(s []byte) ([]byte, error) {
 		if n > len(s) {
 			return nil, errors.New("cut in a chunk")
 		}
-		d, err := ksnappy.Decode(nil, s[:n])
+		d, err := strictSnappyDecode(s[:n])
 		if err != nil {
 			return nil, err
 		}
@@ -450,7 +576,8 @@ func genXW(r *rand.Rand, big bool) {
 			feats["sink-fails"] = true
 		}
 		sink := &limitWriter{room: room}
-		codec := &csnappy.Codec{}
+		codec := &csnappy.Codec{Compression: csnappy.Compression(r.Intn(4))}
+		feats[fmt.Sprintf("level=%d", int(codec.Compression))] = true
 		if !framed {
 			codec.Framing = csnappy.Unframed
 		}
@@ -472,15 +599,19 @@ func genXW(r *rand.Rand, big bool) {
 			pos += n
 			var wn int64
 			var err error
-			if r.Intn(6) == 0 {
-				// ReadFrom with read-size limits
-				var limits []int
-				for k := r.Intn(4); k > 0; k-- {
-					limits = append(limits, 1+r.Intn(2000))
+			if r.Intn(3) == 0 {
+				// ReadFrom (what io.Copy uses) with a scripted source
+				sr, spec, sf := genScript(r, piece, true)
+				for _, f := range sf {
+					feats[f] = true
 				}
 				feats["ReadFrom"] = true
-				ops = append(ops, "R"+hx(piece)+"/"+kvfmt.Ints(limits))
-				wn, err = wc.(io.ReaderFrom).ReadFrom(&limitsReader{data: piece, limits: limits})
+				ops = append(ops, "R"+spec)
+				if r.Intn(2) == 0 {
+					wn, err = io.Copy(wc, sr)
+				} else {
+					wn, err = wc.(io.ReaderFrom).ReadFrom(sr)
+				}
 			} else {
 				ops = append(ops, "W"+hx(piece))
 				var k int
@@ -584,9 +715,16 @@ func checkWritten(codec *csnappy.Codec, framed bool, data, payload []byte) strin
 			return "go-xerial-snappy-decode-differs"
 		}
 	} else {
-		d, err := ksnappy.Decode(nil, data)
-		if err != nil || !bytes.Equal(d, payload) {
+		d, err := strictSnappyDecode(data)
+		if err != nil {
+			return "raw-block-not-snappy:" + strings.ReplaceAll(err.Error(), " ", "_")
+		}
+		if !bytes.Equal(d, payload) {
 			return "raw-block-decode-differs"
+		}
+		d, err = ksnappy.Decode(nil, data)
+		if err != nil || !bytes.Equal(d, payload) {
+			return "raw-block-decode-differs(klauspost)"
 		}
 	}
 	rc := codec.NewReader(bytes.NewReader(data))
@@ -857,11 +995,19 @@ func genXR(r *rand.Rand, big bool) {
 			if count > 4000 {
 				count = 4000
 			}
-			if r.Intn(8) == 0 {
+			thenCopy := r.Intn(3) == 0
+			if thenCopy {
+				// a few Reads (peeking at the start), then io.Copy / WriteTo for the rest
+				count = 1 + r.Intn(3)
+				feats["Read-then-WriteTo"] = true
+			} else if r.Intn(8) == 0 {
 				count = r.Intn(4)
 				feats["closed-before-EOF"] = true
 			}
 			mode = fmt.Sprintf("R%xx%s", count, kvfmt.Ints(sizes))
+			if thenCopy {
+				mode += "+T"
+			}
 			buf := make([]byte, 70001)
 			for i := 0; i < count; i++ {
 				k := sizes[i%len(sizes)]
@@ -879,6 +1025,19 @@ func genXR(r *rand.Rand, big bool) {
 				}
 				got.Write(buf[:n])
 				lens = append(lens, kvfmt.U(uint64(n)))
+			}
+			if thenCopy && final == nil {
+				var err error
+				if r.Intn(2) == 0 {
+					_, err = io.Copy(&got, rc)
+				} else {
+					_, err = rc.(io.WriterTo).WriteTo(&got)
+				}
+				final = err
+				if err == nil {
+					final = io.EOF
+				}
+				complete = true
 			}
 		}
 		hr.UnwrapDecode()
@@ -988,7 +1147,7 @@ var refCodecs = []refCodec{
 			}
 			return ksnappy.Encode(nil, payload), nil
 		},
-		dec: func(data []byte) ([]byte, error) { return ksnappy.Decode(nil, data) },
+		dec: strictSnappyDecode,
 	},
 	{
 		name:   "lz4",
@@ -1030,6 +1189,91 @@ var refCodecs = []refCodec{
 			return io.ReadAll(z)
 		},
 	},
+}
+
+// every compression level of the snappy codec, framed and unframed, is a codec of its own
+// for the round-trip / interoperability cases
+func init() {
+	base := len(refCodecs)
+	_ = base
+	for _, unframed := range []bool{false, true} {
+		for lvl := csnappy.FasterCompression; lvl <= csnappy.BestCompression; lvl++ {
+			lvl, unframed := lvl, unframed
+			rc := refCodecs[1]
+			fr := csnappy.Framed
+			if unframed {
+				rc = refCodecs[2]
+				fr = csnappy.Unframed
+			}
+			rc.name = fmt.Sprintf("%s-level%d", rc.name, int(lvl))
+			rc.codec = func() compress.Codec { return &csnappy.Codec{Framing: fr, Compression: lvl} }
+			rc.shared = &csnappy.Codec{Framing: fr, Compression: lvl}
+			refCodecs = append(refCodecs, rc)
+		}
+	}
+}
+
+// writeMixed offers the payload through a mix of Write and io.Copy (ReadFrom where the
+// writer has it) from scripted sources, incl. ones that return (n > 0, io.EOF)
+//
+// copyOnlyFirst: known finding C16-lz4-readfrom-after-write (pierrec/lz4 v4.1.15
+// Writer.ReadFrom has no case for a writer that was already written to; the quirk case
+// replays it) — for lz4 io.Copy is used only as the first operation on the writer.
+func writeMixed(r *rand.Rand, w io.Writer, payload []byte, split []int, copyOnlyFirst bool) error {
+	pos := 0
+	for i, n := range split {
+		piece := payload[pos : pos+n]
+		pos += n
+		if r.Intn(3) == 0 && !(copyOnlyFirst && i > 0) {
+			sr, _, _ := genScript(r, piece, false)
+			k, err := io.Copy(w, sr)
+			if err != nil {
+				return err
+			}
+			if k != int64(n) {
+				return fmt.Errorf("io.Copy reported %d of %d bytes", k, n)
+			}
+		} else if _, err := w.Write(piece); err != nil {
+			return err
+		}
+	}
+	return nil
+}
+
+// readMixed reads everything: Reads with the given sizes, or a few Reads and then io.Copy
+// (WriteTo where the reader has it), or io.Copy alone
+//
+// noReadThenCopy: known findings C16-gzip-writeto-after-read (klauspost gzip.Reader.WriteTo
+// after a Read reports "invalid checksum" on a correct stream) and C16-lz4-writeto-after-read
+// (pierrec/lz4 v4.1.15 Reader.WriteTo has no case for a reader already read from); the
+// quirk cases replay them.
+func readMixed(r *rand.Rand, rd io.Reader, sizes []int, noReadThenCopy bool) ([]byte, error) {
+	k := r.Intn(3)
+	if noReadThenCopy && k == 2 {
+		k = r.Intn(2)
+	}
+	switch k {
+	case 0:
+		return readSizes(rd, sizes)
+	case 1:
+		var got bytes.Buffer
+		_, err := io.Copy(&got, rd)
+		return got.Bytes(), err
+	}
+	var got bytes.Buffer
+	buf := make([]byte, 1<<20)
+	for i, k := 0, 1+r.Intn(3); i < k; i++ {
+		n, err := rd.Read(buf[:sizes[i%len(sizes)]])
+		got.Write(buf[:n])
+		if err != nil {
+			if errors.Is(err, io.EOF) {
+				return got.Bytes(), nil
+			}
+			return got.Bytes(), err
+		}
+	}
+	_, err := io.Copy(&got, rd)
+	return got.Bytes(), err
 }
 
 // read everything with the given buffer sizes (cyclically)
@@ -1077,7 +1321,7 @@ func roundTrip(r *rand.Rand, rc refCodec, codec compress.Codec, payload []byte, 
 	}()
 	var b bytes.Buffer
 	w := codec.NewWriter(&b)
-	if err := writeSplit(w, payload, split); err != nil {
+	if err := writeMixed(r, w, payload, split, rc.name == "lz4"); err != nil {
 		w.Close()
 		return "write:" + err.Error()
 	}
@@ -1096,7 +1340,7 @@ func roundTrip(r *rand.Rand, rc refCodec, codec compress.Codec, payload []byte, 
 		return "reference-decoder-differs"
 	}
 	rd := codec.NewReader(bytes.NewReader(comp))
-	d, err = readSizes(rd, sizes)
+	d, err = readMixed(r, rd, sizes, rc.name == "gzip" || rc.name == "lz4")
 	rd.Close()
 	rd.Close()
 	if err != nil {
@@ -1110,7 +1354,7 @@ func roundTrip(r *rand.Rand, rc refCodec, codec compress.Codec, payload []byte, 
 		return "reference-encoder:" + err.Error()
 	}
 	rd = codec.NewReader(&chopReader{data: comp2, sizes: []int{1 + r.Intn(5000)}})
-	d, err = readSizes(rd, sizes)
+	d, err = readMixed(r, rd, sizes, rc.name == "gzip" || rc.name == "lz4")
 	rd.Close()
 	if err != nil {
 		return "read-of-reference-stream:" + err.Error()
@@ -1440,6 +1684,112 @@ func genPool(r *rand.Rand, pk poolKind) {
 	emit("pool", pk.name+" "+strings.Join(acts, " "), strings.Join(obs, ","), keys(feats))
 }
 
+// ----------------------------------------------------------------------------- the two known mixes, replayed once per run
+
+func genQuirks() {
+	payload := bytes.Repeat([]byte("hello kafka "), 3000)
+	{ // lz4: Write, then io.Copy (ReadFrom promoted from *lz4.Writer)
+		var b bytes.Buffer
+		w := compress.Lz4Codec.NewWriter(&b)
+		why := ""
+		if _, err := w.Write(payload[:100]); err != nil {
+			why = "write:" + err.Error()
+		} else if _, err := io.Copy(w, &scriptReader{data: payload[100:]}); err != nil {
+			why = "io.Copy-after-Write:" + err.Error()
+		}
+		if err := w.Close(); err != nil && why == "" {
+			why = "close:" + err.Error()
+		}
+		if why == "" {
+			if d, err := io.ReadAll(plz4.NewReader(bytes.NewReader(b.Bytes()))); err != nil || !bytes.Equal(d, payload) {
+				why = "reference-decoder-differs"
+			}
+		}
+		emit("quirk", "lz4-readfrom-after-write", okOr(why), []string{"codec=lz4", "Write-then-ReadFrom"})
+	}
+	{ // lz4: Read, then io.Copy (WriteTo promoted from *lz4.Reader)
+		var lb bytes.Buffer
+		lw := plz4.NewWriter(&lb)
+		lw.Write(payload)
+		lw.Close()
+		rd := compress.Lz4Codec.NewReader(bytes.NewReader(lb.Bytes()))
+		var got bytes.Buffer
+		buf := make([]byte, 10)
+		n, err := rd.Read(buf)
+		got.Write(buf[:n])
+		why := ""
+		if err != nil {
+			why = "read:" + err.Error()
+		} else if _, err := io.Copy(&got, rd); err != nil {
+			why = "io.Copy-after-Read:" + err.Error()
+		} else if !bytes.Equal(got.Bytes(), payload) {
+			why = "read-back-differs"
+		}
+		rd.Close()
+		emit("quirk", "lz4-writeto-after-read", okOr(why), []string{"codec=lz4", "Read-then-WriteTo"})
+	}
+	{ // gzip: Read, then io.Copy (WriteTo promoted from *gzip.Reader)
+		var gb bytes.Buffer
+		gw := stdgzip.NewWriter(&gb)
+		gw.Write(payload)
+		gw.Close()
+		rd := compress.GzipCodec.NewReader(bytes.NewReader(gb.Bytes()))
+		var got bytes.Buffer
+		buf := make([]byte, 10)
+		n, err := rd.Read(buf)
+		got.Write(buf[:n])
+		why := ""
+		if err != nil {
+			why = "read:" + err.Error()
+		} else if _, err := io.Copy(&got, rd); err != nil {
+			why = "io.Copy-after-Read:" + err.Error()
+		} else if !bytes.Equal(got.Bytes(), payload) {
+			why = "read-back-differs"
+		}
+		rd.Close()
+		emit("quirk", "gzip-writeto-after-read", okOr(why), []string{"codec=gzip", "Read-then-WriteTo"})
+	}
+}
+
+// ----------------------------------------------------------------------------- the strict snappy block decoder vs its Coq counterpart
+
+func genSB(r *rand.Rand) {
+	payload, feats := genPayload(r, 3000)
+	type encoder struct {
+		name string
+		f    func(dst, src []byte) []byte
+	}
+	encs := []encoder{
+		{"snappy.Encode", ksnappy.Encode}, {"s2.EncodeSnappy", s2.EncodeSnappy},
+		{"s2.EncodeSnappyBetter", s2.EncodeSnappyBetter}, {"s2.EncodeSnappyBest", s2.EncodeSnappyBest},
+		{"s2.Encode", s2.Encode}, {"s2.EncodeBetter", s2.EncodeBetter}, {"s2.EncodeBest", s2.EncodeBest},
+	}
+	e := encs[r.Intn(len(encs))]
+	chunk := e.f(nil, payload)
+	feats = append(feats, "enc="+e.name)
+	switch r.Intn(6) {
+	case 0:
+		chunk = append([]byte(nil), chunk...)
+		chunk[r.Intn(len(chunk))] ^= byte(1 + r.Intn(255))
+		feats = append(feats, "chunk-corrupt")
+	case 1:
+		chunk = chunk[:r.Intn(len(chunk))]
+		feats = append(feats, "chunk-cut")
+	}
+	res := "!"
+	d, err := strictSnappyDecode(chunk)
+	if err == nil {
+		res = hx(d)
+		feats = append(feats, "accepted")
+	} else {
+		feats = append(feats, "rejected")
+		if strings.Contains(err.Error(), "offset 0") {
+			feats = append(feats, "rejected-S2-repeat")
+		}
+	}
+	emit("sb", hx(chunk), res, feats)
+}
+
 // ----------------------------------------------------------------------------- main
 
 func main() {
@@ -1450,6 +1800,7 @@ func main() {
 	nconc := flag.Int("nconc", 10, "concurrent cases")
 	ntight := flag.Int("ntight", 250, "rounds per goroutine of the tight concurrent run (per codec)")
 	npool := flag.Int("npool", 30, "pool-discipline cases per codec side")
+	nsb := flag.Int("nsb", 200, "strict snappy block decoder cases")
 	flag.Parse()
 	out = bufio.NewWriterSize(os.Stdout, 1<<20)
 	defer out.Flush()
@@ -1484,7 +1835,12 @@ func main() {
 	debug.SetGCPercent(prevGC)
 	runtime.GOMAXPROCS(prevProcs)
 
+	for i := 0; i < *nsb; i++ {
+		genSB(r)
+	}
+
 	// 2. all codecs through the public API
+	genQuirks()
 	for i := 0; i < *nrt; i++ {
 		genRT(r)
 	}
@@ -1494,7 +1850,7 @@ func main() {
 	for i := 0; i < *nconc; i++ {
 		genConc(r, 2+r.Intn(14), 4+r.Intn(8))
 	}
-	for _, rc := range refCodecs {
+	for _, rc := range refCodecs[:5] {
 		genConcTight(r, rc, 48, *ntight)
 	}
 }
